@@ -1017,6 +1017,11 @@ func TestCheck(t *testing.T) {
 		racers := tierN(r, 6, 12)
 		racerIters := tierN(r, 800, 2000)
 		vkit.Sched.Enable(uint64(r.Seed), 0.02, 0.01, 0.0005)
+		// server-list churn under concurrent picks (see churn_test.go); runs first so that a fatal error shows up early
+		churn := tierN(r, 6, 40)
+		churnIters := tierN(r, 3000, 20000)
+		r.Parallel(churn, 6, func(i int, g *vkit.Rand) { serverListChurn(r, g, churnIters) })
+		r.Require(r.Counter("churn_picks_concurrent_with_changes") > 1000, "too few picks concurrent with server-list changes")
 		r.Parallel(n+hung+racers, 16, func(i int, g *vkit.Rand) {
 			if p := vkit.Safely(func() {
 				if i >= n+hung {
